@@ -134,7 +134,7 @@ func Project(t *TD, v reflect.Value) any {
 	switch t.K {
 	case "bool":
 		return v.Bool()
-	case "int":
+	case "int", "marked":
 		return AbsInt(v.Int())
 	case "uint":
 		return AbsUint(v.Uint())
@@ -304,7 +304,7 @@ func Build(t *TD, x any, v reflect.Value) {
 	switch t.K {
 	case "bool":
 		v.SetBool(x.(bool))
-	case "int":
+	case "int", "marked":
 		v.SetInt(signed(x))
 	case "uint":
 		v.SetUint(unsigned(x))
